@@ -48,6 +48,7 @@ TRUSTED = ["harness/run_C08.py (scenario generator, observation, canonicaliser, 
            "Drv/C08.lean concrete filter evaluator FExpr (the theorems quantify over arbitrary filter functions)"]
 
 KINDS = {"e": "event", "m": "mqtt", "w": "webhook"}
+HOLD = 0.45     # state_hold of the extra @state_trigger of "hold" functions (virtual seconds)
 OPSYM = {"eq": "==", "ne": "!=", "lt": "<", "le": "<=", "gt": ">", "ge": ">="}
 
 
@@ -351,7 +352,7 @@ def gen_scenario(rng, tier, search):
     sizes = [1] * nf
     for _ in range(total - nf):
         sizes[rng.randrange(nf)] += 1
-    shared_hook = rng.random() < 0.06
+    shared_hook = rng.random() < 0.12
     used_hooks = []
     # the last function listens to emitted types and never emits events itself (no cascade loops)
     funcs = []
@@ -427,6 +428,22 @@ def gen_scenario(rng, tier, search):
             op.append(rng.choice([None, "q=1&a=9"]))                                     # query string (ignored)
     if keys_present(funcs, "w") and rng.random() < 0.2:
         ops.insert(rng.randrange(len(ops) + 1), ["wbad", rng.choice(keys_present(funcs, "w"))])   # JSON type, empty body
+    if rng.random() < 0.22:
+        # one function also carries a held @state_trigger (no time trigger): its trigger task alternates between
+        # timed waits (hold running) and untimed ones; 2-4 occurrences aimed at it follow each hold expiry at once
+        f = rng.choice(funcs)
+        f["hold"] = True
+        for d in f["decs"]:
+            if tag_of(d) is None:
+                d["kwargs"].insert(0, ["_d", 100 + f["decs"].index(d)])
+                d.pop("kwargs_empty", None)
+        for _ in range(rng.choice([1, 1, 2])):
+            at = rng.randrange(len(ops) + 1)
+            blk = [["hold", f["name"]]]
+            for _ in range(rng.randint(2, 4)):
+                d = rng.choice(f["decs"])
+                blk.append(gen_occurrence(rng, d, aim=d["filt"] is not None and rng.random() < 0.8))
+            ops[at:at] = blk
     takes = [rng.randrange(0, 6) for _ in range(8)]
     sc = {"funcs": funcs, "ops": ops, "takes": takes}
     if rng.random() < 0.15:
@@ -524,6 +541,18 @@ DIRECTED += [
 ]
 
 
+DIRECTED += [
+    # a held state trigger next to an event and an mqtt trigger in ONE trigger task (legacy), no time trigger: after each
+    # hold expiry three messages back-to-back must all arrive, at once and in order (seeded change C08_7)
+    {"funcs": [dict(_dfunc("f0", [_ddec("e", "e0", None, 0), _ddec("m", "u", None, 1)]), hold=True),
+               _dfunc("f1", [_ddec("e", "e0", ["cmp", "ne", "x", "-", 2], 2)])],
+     "ops": [["hold", "f0"], ["e", "e0", [["x", 1]]], ["e", "e0", [["x", 2]]], ["m", "u", "u", "on", 0, False],
+             ["e", "e0", [["x", 3]]], ["settle", 1], ["hold", "f0"], ["m", "u", "u", "off", 0, False], ["e", "e0", [["x", 4]]],
+             ["settle", 0.3], ["e", "e0", [["x", 5]]]],
+     "takes": [0]},
+]
+
+
 # keyword names that collide with parameters of pyscript's own call chain
 INTERNAL_A = {"self", "func", "func_name", "ast_ctx"}                                      # AstEval.call_func / EvalFunc.call
 INTERNAL_B = {"func", "ast_ctx", "task_unique", "task_unique_func", "hass_context"}        # legacy do_func_call
@@ -615,10 +644,15 @@ def emit_src(fname, j, em):
 def script_src(funcs):
     out = ["seq = {}", "", "@service", "def svcrec(**kw):", "    pass", ""]
     for f in funcs:
+        if f.get("hold"):
+            out.append(f"@state_trigger(\"pyscript.hv_{f['name']} == '1'\", state_hold={HOLD})")
         for d in f["decs"]:
             out.append(dec_src(d))
         out.append(f"def {f['name']}(**kw):")
-        body = ["d = kw.get('_d')", f"k = seq.get(({f['name']!r}, d), 0)", f"seq[({f['name']!r}, d)] = k + 1",
+        body = []
+        if f.get("hold"):
+            body += ["if kw.get('trigger_type') == 'state':", f"    rec('hrun', {f['name']!r})", "    return"]
+        body += ["d = kw.get('_d')", f"k = seq.get(({f['name']!r}, d), 0)", f"seq[({f['name']!r}, d)] = k + 1",
                 f"rec('run', {f['name']!r}, d, k, kw)"]
         for j, em in enumerate(f["emits"]):
             if em["when"] == "pre":
@@ -715,8 +749,12 @@ def run_scenario(p):
             mq = {}
             for t, _ in subs:
                 mq[t] = mq.get(t, 0) + 1
+            # decorators listening per webhook id (one Home Assistant registration per id, shared); a tree
+            # without the shared table has exactly one decorator per registered id
+            shared = hass.data.get("pyscript.webhook_trigger")
             obs["tab"] = {"e": {k: lst.get(k, 0) for k in types}, "m": mq,
-                          "w": {k: 1 for k in hass.data.get("webhook", {}).keys()}}
+                          "w": {k: (len(shared.get(k, [])) if shared is not None else 1)
+                                for k in hass.data.get("webhook", {}).keys()}}
             obs["start_order"] = list(started_order)
             live = {}
             for dm in g.dms:
@@ -726,8 +764,18 @@ def run_scenario(p):
         obs["hooks_cfg"] = {k: [v.get("local_only"), sorted(v.get("allowed_methods") or [])]
                             for k, v in hass.data.get("webhook", {}).items()}
         # ---- the occurrences
+        for f in p["funcs"]:
+            if f.get("hold"):
+                await env.set_state(f"pyscript.hv_{f['name']}", "0")
         for op in p["ops"]:
-            if op[0] == "e":
+            if op[0] == "hold":
+                # the function's held state trigger turns true and its hold expires (a wait that ends by time-out);
+                # the following occurrences arrive right after that
+                hass.states.async_set(f"pyscript.hv_{op[1]}", "0")
+                await env.settle(0)
+                hass.states.async_set(f"pyscript.hv_{op[1]}", "1")
+                await env.settle(HOLD + 0.35)
+            elif op[0] == "e":
                 hass.bus.async_fire(op[1], dict(op[2]))
             elif op[0] == "m":
                 _, sub, topic, payload, qos, retain = op
@@ -1054,7 +1102,7 @@ def _run_one(p):
                 key = d["kind"] + "." + v
                 passed[key] = passed.get(key, 0) + k
         info = {"nlog": len(an["log"]), "nem": len(an["ems"]), "start_errors": len(obs.get("errors", [])),
-                "passed": passed}
+                "passed": passed, "hruns": sum(1 for r in obs["records"] if r[1] == "hrun")}
     except Exception as e:  # pylint: disable=broad-except
         import traceback
         return {"impl": "analysis-crash", "line": None, "oracle": "harness-crash: " + traceback.format_exc()[-400:],
@@ -1311,7 +1359,14 @@ def extra_coverage(cases):
                     cnt("event_data_reserved_key")
                 if any(k in ("class", "lambda", "None_", "data", "kwargs") for k in ks):
                     cnt("event_data_keyword_key")
-        nops = [o for o in p["ops"] if o[0] != "settle"]
+        if any(f.get("hold") for f in p["funcs"]):
+            cnt("functions_with_held_state_trigger")
+            cnt("hold_expiries", sum(1 for o in p["ops"] if o[0] == "hold"))
+            cnt("hold_runs_observed", p.get("_info", {}).get("hruns", 0))
+        wk = [d["key"] for f in p["funcs"] for d in f["decs"] if d["kind"] == "w"]
+        if len(wk) != len(set(wk)):
+            cnt("webhook_id_shared_by_several_decorators")
+        nops = [o for o in p["ops"] if o[0] not in ("settle", "hold")]
         if not any(o[0] == "settle" for o in p["ops"]) and len(nops) >= 3:
             cnt("bursts_of_three_or_more")
     for c in cases:
